@@ -215,6 +215,7 @@ void run(const Case &c, verif_result *out) {
     std::string cls = c.get("class") + ":" + c.get("label", "none");
     std::string wmode = c.get("wmode", "int");
     bool exact = wmode != "rounded";
+    bool built = false;
     G g(0);
     Model m;
     StepFacts facts;
@@ -229,15 +230,39 @@ void run(const Case &c, verif_result *out) {
             s.n = familyEdges(fam, c.geti("fa", 2), c.geti("fb", 4), fe);
             long long wk = c.geti("fw", 1); // 0: all zero, 1: all one, else varying
             long long x = 0;
+            bool explicitW = false;
             for (auto &e : fe) {
                 ++x;
                 s.edges.push_back(GEdge{e.i, e.j, wk <= 1 ? wk : (x * wk) % 5});
+                explicitW |= e.w >= 0;
             }
             facts.tag("family_" + fam);
+            if (explicitW) {
+                // families that come with their own (non-dyadic) weights
+                g = G(s.n);
+                m = Model();
+                m.directed = T::directed;
+                m.fam = 'W';
+                m.n = s.n;
+                for (auto &e : fe) {
+                    UPair k = m.key(e.i, e.j);
+                    if (m.e.count(k))
+                        continue;
+                    double w = e.w >= 0 ? e.w : 1.0;
+                    g.addEdge(e.i, e.j, w);
+                    MVal v;
+                    v.copies = 1;
+                    v.w = w;
+                    m.e[k] = v;
+                }
+                built = true;
+                exact = false;
+            }
         } else {
             s = parseGSpec(c, T::directed);
         }
-        if (wmode == "rounded") {
+        if (built) {
+        } else if (wmode == "rounded") {
             // weights: x / 7 (not exactly representable), still >= 0
             g = G(s.n + s.padFront);
             m = Model();
